@@ -199,7 +199,31 @@ def run(repo, rep, tier):
                 rep.evals()
                 rep.check('port', '%s: port %d %s' % (what, v, 'rejected' if (v < 1 or v > 65535) else 'accepted'), got == (v < 1 or v > 65535), g, '%s: port %d is %s' % (what, v, 'rejected' if got else 'accepted'))
         return gs
-    port_guard(pc, 'port', 'process_commandline')
+    gpc = port_guard(pc, 'port', 'process_commandline')
+    # the -p range check (and the use of the -p value) must be reached for EVERY value given with -p, including 0:
+    # conditions over the option value are evaluated for oport in {None, 0, 22, 70000}
+    from sa.slicer import uses as _uses
+    for g in gpc:
+        for v in (None, 0, 22, 70000):
+            reach_ = True
+            for t, p, k in path_condition(g):
+                if k in ('if', 'guard') and _uses(t) <= {'oport'}:
+                    try:
+                        if bool(ev(t, {'oport': v})) != p:
+                            reach_ = False
+                    except Unknown:
+                        raise AnalysisError('condition on the -p value not interpretable: %s' % unparse(t))
+            rep.evals()
+            rep.check('port', 'command line: the range check is %s for -p %r' % ('reached' if v is not None else 'skipped (no -p)', v), reach_ == (v is not None), g,
+                      'with -p %r the port range check is %s: the option value is tested for truthiness, so -p 0 is silently treated as "no port given" and the default port is dialled' % (v, 'reached' if reach_ else 'skipped'))
+        # the value checked is the -p value
+        pdefs = [n for n in walk_no_nested(pc) if isinstance(n, ast.Assign) and unparse(n.targets[0]) == 'port' and unparse(n.value) == 'Utils.parse_int(oport)']
+        rep.check('port', 'the checked port is the -p value', len(pdefs) == 1 and pdefs[0].lineno < g.lineno and pdefs[0]._parent is g._parent, g, 'range check no longer applies to the -p value')
+    hsel = [n for n in walk_no_nested(pc) if isinstance(n, ast.If) and _uses(n.test) <= {'oport'} and any(isinstance(x, ast.Assign) and unparse(x) == 'host = argument.host' for x in n.body)]
+    for n in hsel:
+        for v in (None, 0, 22):
+            got = bool(ev(n.test, {'oport': v}))
+            rep.check('port', 'with -p %r the positional argument is %s' % (v, 'taken as the host alone' if v is not None else 'split into host and port'), got == (v is not None), n, 'host/port split decision for -p %r is wrong (truthiness test on the option value)' % v)
     sa_ = repo.func('auditconf', 'AuditConf.__setattr__')
     gsa = port_guard(sa_, 'port', 'AuditConf.__setattr__')
     if gsa:
